@@ -394,7 +394,7 @@ PROPS = {
                      {'engine': 'python', 'name': 'cpython_rust_twin', 'mode': 'C18twin', 'n': 600, 'n_thorough': 4000, 'needs_replay': True, 'bound': '600 (thorough: 4000) seeded random call scripts (10-60 calls; half of them confined to one bid and one ask price so that queue position is visible in the trades) over the non-numpy API, alternately on bourse.core.OrderBook (place incl. market / off-grid / lowest prices, cancel, modify incl. restated price or volume and None, set_time, toggles) and bourse.core.StepEnv (the same plus step, several steps per script, batches whose processing order is visible), executed on the compiled extension module under CPython and, call by call, on the Rust core (bourse_book::OrderBook, bourse_de::Env with Xoroshiro128StarStar::seed_from_u64(seed)) by the replay runner: every return value, ValueError, and after every call orders, trades, statuses, touch prices, volumes, time, traded volume and every history series must agree, in the documented encodings'}],
             'design': '§5 C18'},
     'C20': {'legs': [{'engine': 'derive'},
-                     R('derive_execution', ['derive-twin'], '13 struct shapes (adjacent members of one type, A-B-A, runs, nested sets, attributes / doc comments / cfg, parenthesised types, type macros, `$t:ty` fragments of a declarative macro; both derives) compiled with the REAL derive macros of the working tree and executed twice each: every member is a probe that draws from the shared generator and places an order carrying its id and the draw; the order list must be the hand-written sequence - every member once, in declaration order, same environment and generator')],
+                     R('derive_execution', ['derive-twin'], '17 struct shapes (same-named structs of equal size in different modules declared in different orders - within and across the two derives -, adjacent members of one type, A-B-A, runs, nested sets, attributes / doc comments / cfg, parenthesised types, type macros, `$t:ty` fragments of a declarative macro; both derives) compiled with the REAL derive macros of the working tree and executed twice each: every member is a probe that draws from the shared generator and places an order carrying its id and the draw; the order list must be the hand-written sequence - every member once, in declaration order, same environment and generator')],
             'design': '§5 C20'},
     'C19': {'legs': [V('py'), V('env'), V('book'),
                      {'engine': 'python', 'name': 'cpython_arrays_and_dictionary', 'n': 40, 'bound': '40 seeded random simulations (3-8 steps, ticks 1/2/5; the book mid-range, at the bottom of the price range with bids down to price 0, or at its top) on StepEnv and StepEnvNumpy through the compiled extension module: both observation arrays, get_prices / get_volumes and EVERY key and series of the market-data dictionary against quantities recomputed from get_orders() / get_trades() after each step'},
